@@ -164,9 +164,19 @@ func (c *Ctx) c35CheckCmd(info *types.Info, fd *ast.FuncDecl) {
 		c.Viol("R35b", fn+":emit", em.call.Pos(), "%s emits with p.Stdout.%s: a byte (newline) is added that the ! form does not remove / does not expect, so `!X` no longer gives back the original text", fn, em.name)
 		return
 	}
+	defs := localDefs(info, fd.Body)
 	var outVar types.Object
+	// valNode: the expression whose evaluation fixes the bytes that are written — the argument itself, or
+	// the single definition `out := []byte(v)` of a local that is passed instead.
+	var valNode ast.Node = em.call
 	if len(em.call.Args) == 1 {
-		if conv, ok := unparen(em.call.Args[0]).(*ast.CallExpr); ok && len(conv.Args) == 1 {
+		arg := unparen(em.call.Args[0])
+		if id, ok := arg.(*ast.Ident); ok {
+			if r := defs.resolve1(info, id); r != ast.Expr(id) {
+				arg, valNode = r, r
+			}
+		}
+		if conv, ok := arg.(*ast.CallExpr); ok && len(conv.Args) == 1 {
 			if tv, ok := info.Types[conv.Fun]; ok && tv.IsType() {
 				if id, ok := unparen(conv.Args[0]).(*ast.Ident); ok {
 					outVar = info.ObjectOf(id)
@@ -178,15 +188,15 @@ func (c *Ctx) c35CheckCmd(info *types.Info, fd *ast.FuncDecl) {
 		c.Undecided("R35b", fn+":emit", em.call.Pos(), "%s emits %s, not []byte(<variable>): cannot follow the value that is written", fn, c.src(em.call.Args[0]))
 		return
 	}
-	emitIdx := topLevelIndex(fd.Body.List, em.call)
-	if emitIdx < 0 || len(pathTo(fd.Body, em.call)) == 0 {
+	emitIdx := topLevelIndex(fd.Body.List, valNode)
+	if emitIdx < 0 || len(pathTo(fd.Body, em.call)) == 0 || len(pathTo(fd.Body, valNode)) == 0 {
 		c.Undecided("R35b", fn+":emit", em.call.Pos(), "emit is not in the function body")
 		return
 	}
-	// the emit must be unconditional at top level (ExprStmt / AssignStmt / ReturnStmt directly in the body)
-	if gs := guardsAt(info, pathTo(fd.Body, em.call)); len(factsOf(gs)) > 0 {
+	// the emit (and the conversion it writes) must be unconditional with respect to IsNot/IsMethod
+	for _, nd := range []ast.Node{em.call, valNode} {
 		cond := false
-		for _, f := range factsOf(gs) {
+		for _, f := range factsOf(guardsAt(info, pathTo(fd.Body, nd))) {
 			// earlier `if err != nil { return err }` exits are fine; IsNot/IsMethod conditions are not
 			if c35ProcField(info, f.E, "IsNot") || c35ProcField(info, f.E, "IsMethod") {
 				cond = true
@@ -217,7 +227,6 @@ func (c *Ctx) c35CheckCmd(info *types.Info, fd *ast.FuncDecl) {
 		}
 		return true
 	})
-	defs := localDefs(info, fd.Body)
 
 	isOut := func(e ast.Expr) bool {
 		id, ok := unparen(e).(*ast.Ident)
@@ -474,6 +483,57 @@ func (c *Ctx) c35IsNotRule(R string) {
 	}
 	info := pk.TypesInfo
 	defs := localDefs(info, fd.Body)
+	// isName: e is (a single-definition local holding) <p>.Name.String()
+	isName := func(e ast.Expr) bool {
+		call, ok := defs.resolve1(info, e).(*ast.CallExpr)
+		if !ok {
+			return false
+		}
+		se, ok := call.Fun.(*ast.SelectorExpr)
+		return ok && se.Sel.Name == "String" && len(call.Args) == 0 && isField(info, se.X, c35ProcT, "Name")
+	}
+	// bangTest: +1 when e holds exactly where the command name starts with '!' (name[0] == '!',
+	// '!' == name[0], a local holding name[0], strings.HasPrefix(name, "!")), -1 for its negation, else 0
+	var bangTest func(e ast.Expr) int
+	bangTest = func(e ast.Expr) int {
+		e = defs.resolve1(info, e)
+		switch x := e.(type) {
+		case *ast.UnaryExpr:
+			if x.Op == token.NOT {
+				return -bangTest(x.X)
+			}
+		case *ast.CallExpr:
+			if callIs(info, x, "strings", "", "HasPrefix") && len(x.Args) == 2 && isName(x.Args[0]) {
+				if s, ok := constString(info, x.Args[1]); ok && s == "!" {
+					return 1
+				}
+			}
+		case *ast.BinaryExpr:
+			if x.Op != token.EQL && x.Op != token.NEQ {
+				return 0
+			}
+			xx, yy := unparen(x.X), unparen(x.Y)
+			if _, isK := constInt(info, xx); isK {
+				xx, yy = yy, xx
+			}
+			k, isK := constInt(info, yy)
+			ix, isIx := defs.resolve1(info, xx).(*ast.IndexExpr)
+			if !isK || k != '!' || !isIx {
+				return 0
+			}
+			if i0, ok := constInt(info, ix.Index); !ok || i0 != 0 {
+				return 0
+			}
+			if !isName(ix.X) {
+				return 0
+			}
+			if x.Op == token.EQL {
+				return 1
+			}
+			return -1
+		}
+		return 0
+	}
 	n := 0
 	walkStack(fd.Body, func(x ast.Node, st []ast.Node) bool {
 		as, ok := x.(*ast.AssignStmt)
@@ -484,33 +544,11 @@ func (c *Ctx) c35IsNotRule(R string) {
 		v, isC := constBool(info, as.Rhs[0])
 		bang := 0
 		for _, f := range factsOf(guardsAt(info, st)) {
-			b, ok := unparen(f.E).(*ast.BinaryExpr)
-			if !ok || (b.Op != token.EQL && b.Op != token.NEQ) {
+			t := bangTest(f.E)
+			if t == 0 {
 				continue
 			}
-			xx, yy := unparen(b.X), unparen(b.Y)
-			if _, isK := constInt(info, xx); isK {
-				xx, yy = yy, xx
-			}
-			k, isK := constInt(info, yy)
-			ix, isIx := xx.(*ast.IndexExpr)
-			if !isK || k != '!' || !isIx {
-				continue
-			}
-			if i0, ok := constInt(info, ix.Index); !ok || i0 != 0 {
-				continue
-			}
-			// the indexed string is the command name: <p>.Name.String()
-			src := defs.resolve1(info, ix.X)
-			call, ok := src.(*ast.CallExpr)
-			if !ok {
-				continue
-			}
-			se, ok := call.Fun.(*ast.SelectorExpr)
-			if !ok || se.Sel.Name != "String" || !isField(info, se.X, c35ProcT, "Name") {
-				continue
-			}
-			if (b.Op == token.EQL) == f.True {
+			if (t == 1) == f.True {
 				bang = 1
 			} else {
 				bang = -1
@@ -518,7 +556,16 @@ func (c *Ctx) c35IsNotRule(R string) {
 		}
 		switch {
 		case !isC:
-			c.Undecided(R, "createProcess:IsNot", as.Pos(), "Process.IsNot is assigned the non-constant %s", c.src(as.Rhs[0]))
+			// IsNot = <test>: the stored value is the test itself (a fresh Process starts with IsNot == false,
+			// so this is the same as `if <test> { IsNot = true }`)
+			switch t := bangTest(as.Rhs[0]); {
+			case t == 1 && bang != -1:
+				c.OK(R, "createProcess:IsNot", as.Pos(), "IsNot = (command name starts with '!')")
+			case t == -1:
+				c.Viol(R, "createProcess:IsNot", as.Pos(), "Process.IsNot = %s is the negation of name[0]=='!': `X` decodes and `!X` encodes, so the ! form does not undo the plain one", c.src(as.Rhs[0]))
+			default:
+				c.Undecided(R, "createProcess:IsNot", as.Pos(), "Process.IsNot is assigned the non-constant %s", c.src(as.Rhs[0]))
+			}
 		case v && bang == 1, !v && bang == -1:
 			c.OK(R, "createProcess:IsNot", as.Pos(), "IsNot=%v exactly where the command name starts with '!'", v)
 		default:
